@@ -365,7 +365,7 @@ func (c *Ctx) useRecoveryCodeShape(f *ssa.Function) {
 	name := FuncName(f)
 	// (a) true only on a bcrypt match (bool summary)
 	cs := c.boolSummary(f, 1, 0)
-	r.Check(len(cs) > 0 && hasKind(cs, "bcrypt"), "C12.use-code", name, "returns true only on a bcrypt match", c.P.Pos(f.Pos()), credKinds(cs), "UseRecoveryCode can return true without a successful bcrypt comparison")
+	r.Check(len(cs) > 0 && (hasKind(cs, "bcrypt") || hasKind(cs, "password")), "C12.use-code", name, "returns true only on a bcrypt match", c.P.Pos(f.Pos()), credKinds(cs), "UseRecoveryCode can return true without a successful bcrypt comparison")
 	// (b) result list has len(codes)-1 elements and skips index 'use'
 	okLen := false
 	for _, b := range f.Blocks {
